@@ -13,10 +13,13 @@ The Rust code writes several tokens in one chunk (`"type "`, `" implements"`, `"
 writers are character-level machines, so only the concatenation matters (K compares the text byte for byte).
 
 State of the code modelled: the tree after the C16 repairs (see design-notes/C16.md):
-  * `print_string` escapes `"` and `\` in the quoted form and uses the block form only when the block
-    string lexes back (`canBlock`);
+  * `print_string` escapes `\` in the quoted form and uses the block form only when the block string
+    lexes back (`canBlock`); a double quote is still written as is in the quoted form (escaping it changes
+    the pinned `read_introspection` snapshot — recorded as an open finding);
   * variable definitions print their default value and directives;
-  * `extend schema @d` prints no `{}` and `extend union U @d` prints no `=`.
+  * `extend schema @d` prints no `{}`.
+Known and kept (pinned by the parser's `union_definition` snapshot): `extend union U @d` prints `extend union U @d =`,
+which does not parse back (open finding).
 Nothing else is changed: e.g. `schema @a@b{`, `implements & A & B`, `= | A | B`, `on | A | B`, arguments
 with two or more entries one per line, `... on T  @d{`.
 
@@ -41,10 +44,9 @@ def hexLowerAux : Nat → Nat → List Char → List Char
   | f + 1, n, acc => if n < 16 then hexDigit n :: acc else hexLowerAux f (n / 16) (hexDigit (n % 16) :: acc)
 def hexLower (n : Nat) : List Char := hexLowerAux 8 n []
 
-/-- one character of the single-line (quoted) form -/
+/-- one character of the single-line (quoted) form (`"` is NOT escaped by the code) -/
 def quotedChar (c : Char) : List Char :=
-  if c = '"' then ['\\', '"']
-  else if c = '\\' then ['\\', '\\']
+  if c = '\\' then ['\\', '\\']
   else if c = '\r' then ['\\', 'r']
   else if c = '\n' then ['\\', 'n']
   else if isControl c then ['\\', 'u', '{'] ++ hexLower c.toNat ++ ['}']
@@ -292,7 +294,7 @@ def printTypeBody (t : TypeDef) (ext : Bool) : List Tok :=
   | .object | .interface =>
     printImplements t.implements ++ printDirs t.dirs ++ braced (printFieldLinesTs t.fields) t.fields.isEmpty ++ [nl]
   | .union =>
-    printDirs t.dirs ++ (if ext ∧ t.members.isEmpty then [] else [sp, .p "="]) ++ printMembers t.members ++ [nl]
+    printDirs t.dirs ++ [sp, .p "="] ++ printMembers t.members ++ [nl]
   | .enum => printDirs t.dirs ++ braced (printEnumValueLines t.values) t.values.isEmpty ++ [nl]
   | .input => printDirs t.dirs ++ braced (printInputLines t.inputs) t.inputs.isEmpty ++ [nl]
 
